@@ -10,74 +10,89 @@
 (* the requested one is gone, the follower clears when the leader's data starts  *)
 (* beyond its own, a writer refuses a position that is not its end), transfer    *)
 (* byte by byte, interruption after any step, appends at the leader meanwhile.   *)
+(* The leader itself may go through a full resynchronisation (LeaderSwitch): its *)
+(* cache is reset and refilled under history 3 at any range - also one that      *)
+(* covers the offsets a transfer opened under history 1 has still to send; a     *)
+(* reader opened on the old history ends there (ReaderEndsAtReset; FALSE is the   *)
+(* design in which it falls through into whatever is cached at its position).    *)
 EXTENDS Integers, FiniteSets, TLC
 
-CONSTANTS MaxOff, FixDiscardForeign
+CONSTANTS MaxOff, FixDiscardForeign, ReaderEndsAtReset
 
 Off == 0..MaxOff
-VARIABLES lleft, lright,     \* leader holds history 1 on [lleft, lright)
+VARIABLES lid, lleft, lright, \* leader holds history lid (1, after a full resync 3) on [lleft, lright)
+          xid,               \* history the running transfer's reader was opened on
           fid, fb,           \* follower label; fb[o] = history of the byte stored at o (0 none)
           st, lsp, req, pos, \* protocol state, leader position learnt, requested offset, transfer position
           offered            \* leadership was offered to the follower
-vars == <<lleft, lright, fid, fb, st, lsp, req, pos, offered>>
+vars == <<lid, lleft, lright, xid, fid, fb, st, lsp, req, pos, offered>>
 
 Held == {o \in Off : fb[o] # 0}
 FEnd == IF Held = {} THEN -1 ELSE (CHOOSE o \in Held : \A p \in Held : p <= o) + 1
 Interval(S) == \A a, b \in S : \A o \in Off : (a <= o /\ o <= b) => o \in S
 
-TypeOK == /\ lleft \in Off /\ lright \in Off /\ lleft <= lright /\ fid \in 0..2 /\ fb \in [Off -> 0..2]
+TypeOK == /\ lleft \in Off /\ lright \in Off /\ lleft <= lright /\ fid \in 0..3 /\ fb \in [Off -> 0..3] /\ lid \in {1, 3} /\ xid \in {0, 1, 3}
           /\ st \in {"shake", "pre", "meta", "xfer", "done"}
 
 \* the follower starts empty, or with an interval of one history under that history's id
-Init == /\ lleft \in Off /\ lright \in Off /\ lleft <= lright
+Init == /\ lleft \in Off /\ lright \in Off /\ lleft <= lright /\ lid = 1 /\ xid = 0
         /\ \E h \in 0..2, a \in Off, b \in Off :
               /\ a <= b
               /\ fid = (IF a = b THEN 0 ELSE h) /\ (h = 0 => a = b)
               /\ fb = [o \in Off |-> IF a <= o /\ o < b THEN h ELSE 0]
-        /\ st = "shake" /\ lsp = 0 /\ req = 0 /\ pos = 0 /\ offered = FALSE
+        /\ st = "shake" /\ lsp = [id |-> 1, off |-> 0] /\ req = [id |-> 1, off |-> 0] /\ pos = 0 /\ offered = FALSE
 
-Shake == /\ st = "shake" /\ lsp' = lright /\ st' = "pre"
-         /\ UNCHANGED <<lleft, lright, fid, fb, req, pos, offered>>
+Shake == /\ st = "shake" /\ lsp' = [id |-> lid, off |-> lright] /\ st' = "pre"
+         /\ UNCHANGED <<lid, lleft, lright, xid, fid, fb, req, pos, offered>>
 
 \* preSync: foreign or no data -> adopt the leader's id and ask for its newest offset; same id -> ask for the own end
 Pre == /\ st = "pre"
-       /\ IF fid # 1
+       /\ IF fid # lsp.id
           THEN /\ fb' = IF FixDiscardForeign THEN [o \in Off |-> 0] ELSE fb   \* SetRunId alone relabels
-               /\ fid' = 1 /\ req' = lsp
-          ELSE /\ req' = FEnd /\ UNCHANGED <<fid, fb>>
-       /\ st' = "meta" /\ UNCHANGED <<lleft, lright, lsp, pos, offered>>
+               /\ fid' = lsp.id /\ req' = lsp
+          ELSE /\ req' = [id |-> fid, off |-> FEnd] /\ UNCHANGED <<fid, fb>>
+       /\ st' = "meta" /\ UNCHANGED <<lid, lleft, lright, xid, lsp, pos, offered>>
 
 \* the leader's answer and the follower's preparation of its writer
 Meta == /\ st = "meta"
-        /\ IF req > lright
-           THEN /\ offered' = TRUE /\ st' = "done" /\ UNCHANGED <<fb, pos>>
-           ELSE LET m == IF lleft <= req THEN req ELSE lright       \* requested offset gone: newest offset
+        /\ IF req.id # lid
+           THEN /\ st' = "done" /\ UNCHANGED <<fb, pos, offered, xid>>      \* the leader refuses an id that is not its own
+           ELSE IF req.off > lright
+           THEN /\ offered' = TRUE /\ st' = "done" /\ UNCHANGED <<fb, pos, xid>>
+           ELSE LET m == IF lleft <= req.off THEN req.off ELSE lright       \* requested offset gone: newest offset
                     cleared == IF Held # {} /\ m > FEnd THEN [o \in Off |-> 0] ELSE fb
                     end == IF Held # {} /\ m > FEnd THEN -1 ELSE FEnd IN
                 /\ fb' = cleared /\ offered' = offered
-                /\ IF end = -1 \/ end = m THEN st' = "xfer" /\ pos' = m
-                   ELSE st' = "done" /\ pos' = pos          \* the writer refuses a position that is not its end
-        /\ UNCHANGED <<lleft, lright, fid, lsp, req>>
+                /\ IF end = -1 \/ end = m THEN st' = "xfer" /\ pos' = m /\ xid' = lid
+                   ELSE st' = "done" /\ pos' = pos /\ xid' = xid         \* the writer refuses a position that is not its end
+        /\ UNCHANGED <<lid, lleft, lright, fid, lsp, req>>
 
+\* one more byte of the transfer: the reader hands out what the leader's cache holds at its position - under the
+\* history it was opened on, or (the design without ReaderEndsAtReset) whatever is cached there now
 Xfer == /\ st = "xfer" /\ pos < lright
-        /\ fb' = [fb EXCEPT ![pos] = 1] /\ pos' = pos + 1
-        /\ UNCHANGED <<lleft, lright, fid, st, lsp, req, offered>>
+        /\ (ReaderEndsAtReset => xid = lid) /\ (xid # lid => lleft <= pos)
+        /\ fb' = [fb EXCEPT ![pos] = lid] /\ pos' = pos + 1
+        /\ UNCHANGED <<lid, lleft, lright, xid, fid, st, lsp, req, offered>>
 
 \* transport failure or stop after any step; the next round starts with a new handshake
 Interrupt == /\ st \in {"pre", "meta", "xfer", "done"} /\ st' = "shake"
-             /\ UNCHANGED <<lleft, lright, fid, fb, lsp, req, pos, offered>>
+             /\ UNCHANGED <<lid, lleft, lright, xid, fid, fb, lsp, req, pos, offered>>
 
 LeaderAppend == /\ lright < MaxOff /\ lright' = lright + 1
-                /\ UNCHANGED <<lleft, fid, fb, st, lsp, req, pos, offered>>
+                /\ UNCHANGED <<lid, lleft, xid, fid, fb, st, lsp, req, pos, offered>>
 LeaderCollect == /\ lleft < lright /\ lleft' = lleft + 1
-                 /\ UNCHANGED <<lright, fid, fb, st, lsp, req, pos, offered>>
+                 /\ UNCHANGED <<lid, lright, xid, fid, fb, st, lsp, req, pos, offered>>
+\* full resynchronisation of the leader: cache reset, new history at any range (once)
+LeaderSwitch == /\ lid = 1 /\ lid' = 3
+                /\ \E a \in Off, b \in Off : a <= b /\ lleft' = a /\ lright' = b
+                /\ UNCHANGED <<xid, fid, fb, st, lsp, req, pos, offered>>
 
-Next == Shake \/ Pre \/ Meta \/ Xfer \/ Interrupt \/ LeaderAppend \/ LeaderCollect
+Next == Shake \/ Pre \/ Meta \/ Xfer \/ Interrupt \/ LeaderAppend \/ LeaderCollect \/ LeaderSwitch
 Spec == Init /\ [][Next]_vars
 
 \* every byte stored under an id is a byte of that id's history
 C16_FollowerIsCopy == \A o \in Off : fb[o] # 0 => fb[o] = fid
 C16_Contiguous == Interval(Held)
 \* leadership is only offered to a follower whose data is the leader's own history
-C16_NoHandoverToForeign == offered => \A o \in Held : fb[o] = 1
+C16_NoHandoverToForeign == offered => \A o \in Held : fb[o] \in {1, 3}
 =============================================================================
